@@ -415,6 +415,9 @@ pub fn run(ctx: &Ctx) -> (Report, PropertyMeta) {
     report.sections.push(json!({"part": "random histories of subscribe/unsubscribe interleaved with joins (as separate actors, optionally stalled), actor steps, releases, one broken peer", "cases": n}));
     report.merge(r);
 
+    if t == Tier::Thorough {
+        crate::fuzzing::campaign(ctx, &mut report, "sim", 180);
+    }
     let total = report.evaluations;
     health(&mut report, "join-after-subscribe", total, 300);
     health(&mut report, "join-overlaps-a-call", total, 50);
